@@ -235,3 +235,24 @@ check("C04", "fault_enumeration",
            "error of the alphabet from each helper in turn; on every run an honest helper must fail, or both honest helpers must open "
            "exactly the untampered values. Honest runs must validate and open the product.",
       note="Bounds: <= 3 (5) records, 16 lanes; additive alphabets as listed.")
+
+check("C03", "fault_enumeration",
+      "(A) honest acceptance: real multiply over vectorised Booleans of width 3,8,20,64,256 x record counts sweeping 1..5 (17) "
+      "256-bit blocks incl. exact block boundaries x 1-2 gates x {validate(), validate_record with 1,2,4 records per batch}, and "
+      "the recording half driven through DZKPUpgraded::push in forward, reversed and interleaved record order; "
+      "(B) recorded-bit flips: one bit of one of the 7 recorded arrays of one record on one helper, pushed in forward and reversed "
+      "order, for 5 widths; (C) transmitted-bit flips: census of every channel of 4 batches (product shares, proof, challenge, "
+      "verification messages), every byte of the product-share messages x masks, a spread of bytes of the proof messages. "
+      "Oracle: honest => all three accept and products reconstruct; any flip => at least one helper rejects. "
+      "distinct_nontrivial = honest batches + flips that changed a byte.",
+      [{"name": "dzkp", "config": "A", "test": "verif::c03::run", "timeout": {"quick": 1200, "thorough": 10800},
+        "require": {"any": {"honest_batches": 60, "recorded_flips": 100, "wire_rejected": 200, "channels_in_census": 20}}}],
+      assumptions=["soundness error of the proof system (~2^-61 per challenge) is not explored; seeds fixed",
+                   "the table identity of TABLE_U/TABLE_V (design item 1) is covered indirectly through acceptance/rejection only"],
+      exhaustive=True, engine="E3 fault + E5 domain",
+      technique="exhaustive configuration grid of honest batches + exhaustive single-bit fault enumeration (recorded and "
+                "transmitted) on real three-helper executions",
+      text="Honest batches of every enumerated size, width, gate count, validation API and recording order must be accepted by all "
+           "three helpers; every enumerated single-bit corruption of a recorded array or of a transmitted message must make at "
+           "least one helper reject.",
+      note="Widths {3,8,20,64,256}; <= 600 (2200) records; one flipped bit per run.")
